@@ -27,6 +27,7 @@ type config struct {
 	RAbort  bool   `json:"receiver_aborts"`
 	Len     bool   `json:"length_reads"`  // MailboxesLength resource read inside receiver sections
 	Late    bool   `json:"late_receiver"` // the receiver starts listening by a scripted move (dial failures before)
+	Stall   bool   `json:"stall_move"`    // one move "nobody reads for 2.5 write timeouts" while the receive channel is full (costs a deviation)
 	Blocked bool   `json:"blocked_reads"` // reading an empty mailbox = a read left in flight while senders go on (else: a read that times out)
 	Budget  int    `json:"deviation_budget"`
 	ToMs    int    `json:"read_timeout_ms"`  // read timeout of the mailboxes (real time; a spurious one only aborts a section)
@@ -41,6 +42,8 @@ var (
 	expectedAborts  atomic.Int64
 	sockOps         atomic.Int64
 	overlappedReads atomic.Int64
+	commitsInFlight atomic.Int64
+	stallMoves      atomic.Int64
 	lostConfirmed   atomic.Int64
 )
 
@@ -76,6 +79,8 @@ type worker struct {
 type sphase struct {
 	secs, writes int
 	inSec, pre   bool
+	commit       chan any // a Commit in flight that did not return within 3 write timeouts (receiver not reading)
+	commitUnits  int
 }
 
 type rphase struct {
@@ -92,24 +97,27 @@ type readRes struct {
 }
 
 type sockSys struct {
-	c      *explore.Ctx
-	cfg    *config
-	m      *model
-	wk     *worker
-	rid    tla.Value
-	addr   string
-	recvMB *resources.Mailboxes
-	lenRes distsys.ArchetypeResource
-	rleaf  distsys.ArchetypeResource
-	send   []*resources.Mailboxes
-	rIface distsys.ArchetypeInterface
-	sIface []distsys.ArchetypeInterface
-	up     bool
-	B, P   int // units (tcp: batches, relaxed: messages) acknowledged to senders / pulled out of msgChannel by the receiver
-	sp     []sphase
-	rp     rphase
-	trace  []string
-	opts   []resources.MailboxesOption
+	c            *explore.Ctx
+	cfg          *config
+	m            *model
+	wk           *worker
+	rid          tla.Value
+	addr         string
+	recvMB       *resources.Mailboxes
+	lenRes       distsys.ArchetypeResource
+	rleaf        distsys.ArchetypeResource
+	send         []*resources.Mailboxes
+	rIface       distsys.ArchetypeInterface
+	sIface       []distsys.ArchetypeInterface
+	up           bool
+	stalled      bool
+	everInFlight bool
+	Bmax         int // units whose Commit has been invoked (may legitimately be visible)
+	B, P         int // units (tcp: batches, relaxed: messages) acknowledged to senders / pulled out of msgChannel by the receiver
+	sp           []sphase
+	rp           rphase
+	trace        []string
+	opts         []resources.MailboxesOption
 }
 
 func (s *sockSys) fail(v *viol) {
@@ -233,8 +241,9 @@ func (s *sockSys) settle() {
 	t0 := time.Now()
 	for n := 0; ; n++ {
 		l := resources.VerifMboxChanLen(s.rleaf)
-		if l > s.B-s.P {
-			s.fail(&viol{s.cfg.Kind + "/visible-before-commit", fmt.Sprintf("receive channel holds %d units but only %d were acknowledged as committed and not yet pulled", l, s.B-s.P)})
+		if l > s.Bmax-s.P && !s.everInFlight {
+			// (after a Commit was left in flight the surplus is left to the reads, which say what it is: duplicate, ...)
+			s.fail(&viol{s.cfg.Kind + "/visible-before-commit", fmt.Sprintf("receive channel holds %d units but committed sections sent only %d that were not pulled yet (uncommitted or duplicated units are visible)", l, s.Bmax-s.P)})
 		}
 		if l >= want {
 			return
@@ -290,6 +299,7 @@ func (s *sockSys) sWrite(i int) {
 	s.m.wrote(i, v)
 	if s.cfg.Kind == "relaxed" {
 		s.B++
+		s.Bmax++
 		s.settle()
 	}
 }
@@ -323,17 +333,72 @@ func (s *sockSys) sCommit(i int) {
 	s.trace = append(s.trace, fmt.Sprintf("s%d.commit", i))
 	n := len(s.m.cur[i])
 	s.m.senderCommits(i)
-	s.call("Mailboxes.Commit", func() {
+	units := 0
+	if s.cfg.Kind == "tcp" && n > 0 {
+		units = 1
+	}
+	s.Bmax += units
+	done := make(chan any, 1)
+	sockOps.Add(1)
+	go func() {
+		defer func() { done <- recover() }()
 		if ch := s.send[i].Commit(s.sIface[i]); ch != nil {
 			<-ch
 		}
-	})
-	if s.cfg.Kind == "tcp" && n > 0 {
-		s.B++
+	}()
+	// Commit "must complete"; when it does not come back although nobody reads (full receive channel), the driver waits
+	// three write timeouts - long enough for the sender's acknowledgement timeout and reconnect/resend path to run - and
+	// then lets the receiver go on while the Commit stays in flight.
+	wait := 3 * time.Duration(s.cfg.WToMs) * time.Millisecond
+	select {
+	case p := <-done:
+		s.commitDone(i, units, p)
+	case <-time.After(wait):
+		s.trace[len(s.trace)-1] += "(in-flight)"
+		commitsInFlight.Add(1)
+		s.everInFlight = true
+		s.sp[i].commit, s.sp[i].commitUnits = done, units
 	}
+}
+
+func (s *sockSys) commitDone(i, units int, p any) {
+	if p != nil {
+		s.fail(&viol{s.cfg.Kind + "/panic/Mailboxes.Commit", fmt.Sprintf("Commit panicked: %v", p)})
+	}
+	s.B += units
+	s.sp[i].commit = nil
 	s.sp[i].inSec = false
 	s.sp[i].secs++
 	s.settle()
+}
+
+// pollCommits collects Commits in flight that have returned; wait > 0: block up to that long for the first one.
+func (s *sockSys) pollCommits(wait time.Duration) bool {
+	any := false
+	for i := range s.sp {
+		ch := s.sp[i].commit
+		if ch == nil {
+			continue
+		}
+		any = true
+		if wait > 0 {
+			select {
+			case p := <-ch:
+				s.trace = append(s.trace, fmt.Sprintf("s%d.commit-returns", i))
+				s.commitDone(i, s.sp[i].commitUnits, p)
+			case <-time.After(wait):
+			}
+			wait = 0
+			continue
+		}
+		select {
+		case p := <-ch:
+			s.trace = append(s.trace, fmt.Sprintf("s%d.commit-returns", i))
+			s.commitDone(i, s.sp[i].commitUnits, p)
+		default:
+		}
+	}
+	return any
 }
 
 func (s *sockSys) sAbort(i int) {
@@ -543,7 +608,7 @@ func (s *sockSys) run() {
 				return s.rp.inSec && s.rp.pending == nil
 			}
 			if p >= 0 {
-				return s.sp[p].inSec
+				return s.sp[p].inSec && s.sp[p].commit == nil
 			}
 			return false
 		}
@@ -570,10 +635,13 @@ func (s *sockSys) run() {
 			}
 			return s.sp[i].secs+1 < cfg.NS
 		}
+		s.pollCommits(0)
 		for i := range s.sp {
 			ph := s.sp[i]
 			c := pre(i)
 			switch {
+			case ph.commit != nil:
+				// parked in Commit: no move until it returns
 			case !ph.inSec:
 				if ph.secs < cfg.NS {
 					moves = append(moves, move{i, "W", c})
@@ -631,10 +699,21 @@ func (s *sockSys) run() {
 				}
 			}
 		}
+		if cfg.Stall && !s.stalled && s.up && s.rp.pending == nil && len(moves) > 0 && s.B-s.P >= cfg.Cap {
+			// the receive channel is full: nobody reads for longer than the senders' write/acknowledgement timeout
+			moves = append(moves, move{-4, "stall", 1})
+		}
 		if len(moves) == 0 {
 			break
 		}
 		mv := pick(s.c, moves)
+		if mv.who == -4 {
+			s.stalled = true
+			stallMoves.Add(1)
+			s.trace = append(s.trace, "stall")
+			time.Sleep(time.Duration(cfg.WToMs) * time.Millisecond * 5 / 2)
+			continue
+		}
 		cur = mv.who
 		if mv.who >= 0 {
 			switch mv.op {
@@ -699,7 +778,20 @@ func (s *sockSys) drain() {
 		s.listen()
 	}
 	aborts := 0
-	for s.m.pending() > 0 {
+	for {
+		s.pollCommits(0)
+		if s.m.pending() == 0 {
+			break
+		}
+		if d, _ := resources.VerifMboxLocal(s.rleaf); d.ChanLen == 0 && len(d.Backlog) == 0 {
+			// nothing to read yet: if a Commit is still in flight its batch may not have been handed over
+			if s.pollCommits(envCap) {
+				if s.commitsPending() {
+					s.discard("Commit in flight never returned although the receiver has read everything visible")
+				}
+				continue
+			}
+		}
 		before := len(s.m.inprog)
 		s.rRead()
 		if len(s.m.inprog) > before || s.rp.inSec {
@@ -714,12 +806,44 @@ func (s *sockSys) drain() {
 		}
 	}
 	d, _ := resources.VerifMboxLocal(s.rleaf)
+	if d.ChanLen != 0 || len(d.Backlog) != 0 {
+		// more than the committed sections sent: read it so that the model says what it is (duplicate, aborted send, ...)
+		s.beginR()
+		s.trace = append(s.trace, "r.read")
+		r := s.waitRead(s.startRead())
+		if r.err == nil && r.pan == nil {
+			v := int(r.v.AsNumber())
+			s.trace[len(s.trace)-1] += fmt.Sprintf("=%d", v)
+			if f := s.m.got(v, s.cfg.Kind); f != nil {
+				s.fail(f)
+			}
+		}
+	}
 	if d.ChanLen != 0 || len(d.Backlog) != 0 || len(d.InProgress) != 0 {
 		s.fail(&viol{s.cfg.Kind + "/extra-message-after-drain", fmt.Sprintf("every committed send was obtained, yet the mailbox still holds channel=%d backlog=%v in-progress=%v", d.ChanLen, d.Backlog, d.InProgress)})
+	}
+	// every Commit has to return once the receiver has taken everything ("Commit must complete")
+	for s.commitsPending() {
+		s.pollCommits(envCap)
+		if s.commitsPending() {
+			s.discard("Commit in flight never returned after the drain")
+		}
+	}
+	if d, _ := resources.VerifMboxLocal(s.rleaf); d.ChanLen != 0 || len(d.Backlog) != 0 {
+		s.fail(&viol{s.cfg.Kind + "/extra-message-after-drain", fmt.Sprintf("every committed send was obtained and every Commit returned, yet the mailbox holds channel=%d backlog=%v", d.ChanLen, d.Backlog)})
 	}
 	if f := s.m.final(s.cfg.Kind); f != nil {
 		s.fail(f)
 	}
+}
+
+func (s *sockSys) commitsPending() bool {
+	for i := range s.sp {
+		if s.sp[i].commit != nil {
+			return true
+		}
+	}
+	return false
 }
 
 func (w *worker) freeAddr() string {
